@@ -40,15 +40,6 @@ impl Bytes {
   }
 }
 
-fn float_to_int(x: f64) -> u64 {
-  #![allow(
-    clippy::as_conversions,
-    clippy::cast_sign_loss,
-    clippy::cast_possible_truncation
-  )]
-  x as u64
-}
-
 fn int_to_float(x: u64) -> f64 {
   #![allow(clippy::as_conversions, clippy::cast_precision_loss)]
   x as f64
@@ -73,7 +64,7 @@ impl FromStr for Bytes {
 
     let suffix = text.chars().skip_while(is_digit).collect::<String>();
 
-    let value = digits.parse::<f64>().map_err(|source| Error::ByteParse {
+    digits.parse::<f64>().map_err(|source| Error::ByteParse {
       text: text.to_owned(),
       source,
     })?;
@@ -94,7 +85,25 @@ impl FromStr for Bytes {
       }
     };
 
-    Ok(Bytes(float_to_int(value * int_to_float(multiple))))
+    let multiple = u128::from(multiple);
+
+    let (whole, fraction) = digits.split_once('.').unwrap_or((&digits, ""));
+
+    let mut integer: u128 = 0;
+
+    for digit in whole.chars().filter_map(|c| c.to_digit(10)) {
+      integer = integer.saturating_mul(10).saturating_add(u128::from(digit));
+    }
+
+    let mut partial: u128 = 0;
+
+    for digit in fraction.chars().rev().filter_map(|c| c.to_digit(10)) {
+      partial = (u128::from(digit) * multiple + partial) / 10;
+    }
+
+    let count = integer.saturating_mul(multiple).saturating_add(partial);
+
+    Ok(Bytes(u64::try_from(count).unwrap_or(u64::MAX)))
   }
 }
 
@@ -177,8 +186,11 @@ impl Display for Bytes {
 
     let mut i = 0;
 
+    let mut unit: u128 = 1;
+
     while value >= 1024.0 {
       value /= 1024.0;
+      unit = unit.saturating_mul(1024);
       i += 1;
     }
 
@@ -192,7 +204,17 @@ impl Display for Bytes {
       DISPLAY_SUFFIXES[i - 1]
     };
 
-    let formatted = format!("{value:.2}");
+    let scaled = 100 * u128::from(self.0);
+
+    let quotient = scaled / unit;
+
+    let hundredths = match (2 * (scaled % unit)).cmp(&unit) {
+      Ordering::Less => quotient,
+      Ordering::Equal => quotient + quotient % 2,
+      Ordering::Greater => quotient + 1,
+    };
+
+    let formatted = format!("{}.{:02}", hundredths / 100, hundredths % 100);
     let trimmed = formatted.trim_end_matches('0').trim_end_matches('.');
     write!(f, "{trimmed} {suffix}")
   }
